@@ -55,6 +55,10 @@ if os.environ.get("VERIF_REPO"):
     with open(os.path.join(_h, "Cargo.toml"), "w") as _f:
         _f.write(open(os.path.join(HARN, "Cargo.toml")).read().replace('path = "/repo"', 'path = "%s"' % _repo))
     HARN, WORK, REPLAYS, EVID = _h, os.path.join(_scr, "work"), os.path.join(_scr, "replays"), os.path.join(_scr, "evidence")
+    SCRATCH_BIN = os.path.join(_scr, "bin")
+    os.makedirs(SCRATCH_BIN, exist_ok=True)
+else:
+    SCRATCH_BIN = None
 
 
 class ToolError(Exception):
@@ -66,8 +70,14 @@ def log(*a):
 
 
 # --------------------------------------------------------------------------- build
+def target_dir(cfg):
+    # scratch mode shares one target directory (third-party dependencies are compiled once); the binary is
+    # copied out under a lock
+    return os.path.join("/tmp/verif-shared-target", cfg) if SCRATCH_BIN else os.path.join(HARN, "target", cfg)
+
+
 def cargo_cmd(cfg):
-    cmd = ["cargo", "build", "--offline", "--quiet", "--target-dir", os.path.join(HARN, "target", cfg)]
+    cmd = ["cargo", "build", "--offline", "--quiet", "--target-dir", target_dir(cfg)]
     if cfg == "alloc":
         cmd += ["--no-default-features", "--features", "alloc"]
     elif cfg == "none":
@@ -76,6 +86,8 @@ def cargo_cmd(cfg):
 
 
 def fcv(cfg):
+    if SCRATCH_BIN:
+        return os.path.join(SCRATCH_BIN, "fcv_" + cfg)
     return os.path.join(HARN, "target", cfg, "debug", "fcv")
 
 
@@ -84,7 +96,16 @@ def build(configs):
 
     def one(cfg):
         t0 = time.time()
-        p = subprocess.run(cargo_cmd(cfg), cwd=HARN, env=env, capture_output=True, text=True)
+        if SCRATCH_BIN:
+            import fcntl
+            os.makedirs(target_dir(cfg), exist_ok=True)
+            with open(os.path.join(target_dir(cfg), ".verif-lock"), "w") as lk:
+                fcntl.flock(lk, fcntl.LOCK_EX)
+                p = subprocess.run(cargo_cmd(cfg), cwd=HARN, env=env, capture_output=True, text=True)
+                if p.returncode == 0:
+                    shutil.copy(os.path.join(target_dir(cfg), "debug", "fcv"), fcv(cfg))
+        else:
+            p = subprocess.run(cargo_cmd(cfg), cwd=HARN, env=env, capture_output=True, text=True)
         return cfg, p.returncode, p.stderr[-4000:], time.time() - t0
 
     with cf.ThreadPoolExecutor(max_workers=len(configs)) as ex:
